@@ -40,10 +40,14 @@ def scenarios(thorough):
     for body, text in (("three", False), ("big", True), ("one", False)):
         out.append(base_cfg(body=body, text_mode=text, dest_present=True, warm_saver=True))
         out.append(base_cfg(body=body, text_mode=text, dest_present=True, warm_saver=True, perms=0o600))
+    # the part file on another file system (part_file= given as an absolute path): publishing by rename is impossible
+    for dp in (False, True):
+        for text in (False, True):
+            out.append(base_cfg(body="big", text_mode=text, dest_present=dp, part_elsewhere=True))
     # a body that raises must leave the destination untouched at every instant too
     for body, at in (("three", 0), ("three", 2), ("one", 1), ("big", 1)):
         for dp in (False, True):
-            for kind, text in (("Exception", False), ("KeyboardInterrupt", False), ("SystemExit", True), ("GeneratorExit", False)):
+            for kind, text in (("Exception", False), ("KeyboardInterrupt", False), ("SystemExit", True), ("GeneratorExit", False), ("FalsyError", False)):
                 out.append(base_cfg(body=body, raise_at=at, dest_present=dp, raise_kind=kind, text_mode=text))
     for op in (False, True):
         out.append(base_cfg(part_present=True, overwrite_part=op))
